@@ -1539,6 +1539,11 @@ class MacroFunction(Macro):
 
             input_args[len(self.args) - 1 :] = [(va_args_raw, va_args_exp)]
 
+        # Only identifiers of the replacement list itself name parameters;
+        # tokens that arrive through # and ## (arguments, pasted or
+        # stringified tokens) must not be substituted a second time.
+        from_args = set()
+
         if self.has_strcat:
             res_tokens = []
             last_cat = False
@@ -1547,6 +1552,7 @@ class MacroFunction(Macro):
 
             while idx < len(self.replacement):
                 tok = self.replacement[idx]
+                mark_from = len(res_tokens)
                 if tok.token == "##" and last_cat and empty_cat:
                     # The previous concatenation produced no token at all,
                     # so there is nothing to paste onto.
@@ -1561,6 +1567,7 @@ class MacroFunction(Macro):
                     empty_cat = len(nexttok) == 0
                 elif tok.token == "##":
                     last = res_tokens.pop()
+                    mark_from -= 1
                     prev_white = last.prev_white
                     if not last_cat:
                         try:
@@ -1621,6 +1628,8 @@ class MacroFunction(Macro):
                 else:
                     last_cat = False
                     res_tokens.append(tok)
+                    mark_from += 1
+                from_args.update(id(t) for t in res_tokens[mark_from:])
                 idx += 1
         else:
             res_tokens = copy(self.replacement)
@@ -1633,6 +1642,11 @@ class MacroFunction(Macro):
             # If a token matches an argument, it is substituted;
             # otherwise it passes through
             try:
+                if id(token) in from_args or not isinstance(
+                    token,
+                    Identifier,
+                ):
+                    raise ValueError
                 substitution = input_args[self.args.index(token.token)][1]
                 if len(substitution) > 0:
                     substitution[0] = copy(substitution[0])
